@@ -333,9 +333,12 @@ func c03N(c *ctx, code uint16, rl int) {
 		b1[i] ^= 0x5a
 	}
 	_ = f
+	mine := append([]byte(nil), b1...) // what the owner of the first body holds now
 	b2 := ws.NewCloseFrameBody(ws.StatusCode(code), reason)
 	pc, pr := ws.ParseCloseFrameData(b2)
-	c.emit("C03N %d %d -> %d %s %d", code, rl, pc, hx([]byte(pr)), len(b2))
+	// ... and building another body must not touch the first one (two results must not share memory)
+	intact := bytes.Equal(b1, mine)
+	c.emit("C03N %d %d -> %d %s %d %d", code, rl, pc, hx([]byte(pr)), len(b2), b2i(intact))
 }
 
 func r7C03(c *ctx) {
